@@ -71,11 +71,16 @@ def observe(e, raw=False):
     key = attr(lambda: e.key)
     if k == "J" and isinstance(key, str) and not raw:
         key = JUNK_RE.sub("_junk_N_", key)
+    rep = attr(lambda: repr(e))
+    if k == "J" and isinstance(rep, str) and not raw:
+        rep = JUNK_RE.sub("_junk_N_", rep)          # Junk.__repr__ is its key
     return [k, key, attr(lambda: e.raw_val), attr(lambda: e.val), attr(lambda: e.all),
             attr(lambda: e.span), attr(lambda: e.position()), attr(lambda: e.position(-1)),
             attr(lambda: e.value_position()) if k == "E" else None,
+            attr(lambda: e.value_position(-1)) if k == "E" else None,
             attr(lambda: e.pre_comment.all if e.pre_comment is not None else None) if k == "E" else None,
-            attr(lambda: e.count_words()) if k == "E" else None]
+            attr(lambda: e.count_words()) if k == "E" else None,
+            rep, attr(lambda: [e.localized, e.unwrap()]) if k == "E" else None]
 
 
 def model_entry(e, fmt):
@@ -203,8 +208,11 @@ def _compare(base, op, merge):
         j0 = obs_json(cc.observers.observers[0])
         res = {"canon": json.dumps({"list": j, "obs": j0, "exc": exc, "error": cc.observers.error,
                                     "merged": read(mergep) if merge else None}, sort_keys=True)}
-        if fmt in ("ini", "inc") and not merge and not op.get("extra") and not op.get("name"):
+        if fmt in ("ini", "inc") and not op.get("extra") and not op.get("name"):
             res["model"] = model_report(j0, name, exc)
+            if merge:
+                merged = read(mergep)
+                res["model"] += " ;; " + ("-" if exc else ("nofile" if merged is None else enc(merged)))
         return res
     finally:
         shutil.rmtree(d, ignore_errors=True)
@@ -243,7 +251,10 @@ def op_lint(base, op):
                 out.append(r)
         except Exception as ex:       # noqa
             exc = "%s: %s" % (type(ex).__name__, ex)
-        return {"canon": json.dumps({"results": out, "exc": exc}, sort_keys=True)}
+        res = {"canon": json.dumps({"results": out, "exc": exc}, sort_keys=True)}
+        if fmt in ("ini", "inc") and not op.get("name") and not op.get("extra"):
+            res["model"] = lint_model(out, exc)
+        return res
     finally:
         shutil.rmtree(d, ignore_errors=True)
 
@@ -294,7 +305,10 @@ def op_serialize(base, op):
         out = serialize(name, ref, old, dict(op["new"])).decode("utf-8", "replace")
     except Exception as ex:           # noqa
         exc = "%s: %s" % (type(ex).__name__, ex)
-    return {"canon": json.dumps({"out": out, "exc": exc}, sort_keys=True)}
+    res = {"canon": json.dumps({"out": out, "exc": exc}, sort_keys=True)}
+    if fmt in MODEL_FMT:
+        res["model"] = ("ok " + enc(out)) if exc is None else ("exc " + exc.split(":")[0])
+    return res
 
 
 def op_mozmatch(base, op):
@@ -326,7 +340,21 @@ def op_project(base, op):
         exc = None
         j = None
         try:
-            cfg = TOMLParser().parse(os.path.join(d, "l10n.toml"), env={"l10n_base": os.path.join(d, "l")})
+            if op.get("modules"):
+                # l10n.ini style: some path entries carry a legacy `module`, the rest is a plain catch-all entry
+                from compare_locales.paths import ProjectConfig
+                cfg = ProjectConfig(os.path.join(d, "l10n.toml"))
+                cfg.set_root(".")
+                cfg.add_environment(l10n_base=os.path.join(d, "l"))
+                # ProjectFiles consults the path entries last first: the plain catch-all goes in first
+                cfg.add_paths({"l10n": "{l10n_base}/{locale}/**", "reference": "en/**"})
+                for m in op["modules"]:
+                    cfg.add_paths({"l10n": "{l10n_base}/{locale}/%s/**" % m, "reference": "en/%s/**" % m, "module": m})
+                for f in op.get("filters", []):
+                    cfg.add_rules({"path": "{l10n_base}/{locale}/%s" % f[0], "key": f[1], "action": f[2]})
+                cfg.set_locales(op.get("all_locales", locales), deep=True)
+            else:
+                cfg = TOMLParser().parse(os.path.join(d, "l10n.toml"), env={"l10n_base": os.path.join(d, "l")})
             cfg.set_locales(locales, deep=True)
             merge = os.path.join(d, "merge", "{ab_CD}") if False else None
             obs = compareProjects([cfg], locales, os.path.join(d, "l"), merge_stage=merge)
@@ -338,12 +366,31 @@ def op_project(base, op):
         shutil.rmtree(d, ignore_errors=True)
 
 
+class RecObserver(Observer):
+    """an Observer that also records what it is told, in the event form of lean/CLModel/Ops/C10.lean (`obs`)"""
+
+    def __init__(self, *a, **kw):
+        super().__init__(*a, **kw)
+        self.events = []
+
+    def notify(self, category, file, data):
+        from impl.observer import CAT_CODE
+        d = list(data) if isinstance(data, tuple) else data
+        self.events.append(["n", CAT_CODE.get(category, "x"), [file.file, file.module, file.locale], d])
+        return super().notify(category, file, data)
+
+    def updateStats(self, file, stats):
+        from impl.observer import STATKEYS
+        self.events.append(["s", [file.file, file.module, file.locale], [[STATKEYS.index(k), v] for k, v in stats.items()]])
+        return super().updateStats(file, stats)
+
+
 def op_files(base, op):
     """one ContentComparer (+ one Observer) over several file pairs, in the given order"""
     d = tempfile.mkdtemp(dir=base)
     try:
         cc = ContentComparer()
-        cc.observers.append(Observer())
+        cc.observers.append(RecObserver())
         exc = None
         for i in op["order"]:
             rel, ref, l10n = op["files"][i]
@@ -360,9 +407,491 @@ def op_files(base, op):
         shutil.rmtree(d, ignore_errors=True)
 
 
+
+
+# ---------------------------------------------------------------- self-contained object histories (oracle)
+def _res(f):
+    try:
+        v = f()
+    except RecursionError as ex:
+        return "E:" + type(ex).__name__
+    except Exception as ex:       # noqa
+        return "E:%s" % type(ex).__name__
+    return v
+
+
+def op_matcherq(base, op):
+    """ONE Matcher object through several calls; after every call the same call on a Matcher built afresh (same
+    pattern, environment, with_env layers): `stale` = first step whose answers differ"""
+    from compare_locales.paths.matcher import Matcher
+
+    def build(layers):
+        m = Matcher(op["pattern"], dict(op.get("env") or []), root=op.get("root"))
+        for w in layers:
+            m = m.with_env(dict(w))
+        return m
+
+    def do(m, st):
+        if st[0] == "match":
+            return _res(lambda: m.match(st[1]))
+        if st[0] == "sub":
+            return _res(lambda: m.sub(Matcher(st[1], dict(st[2])), st[3]))
+        if st[0] == "prefix":
+            return _res(lambda: m.prefix)
+        raise ValueError(st[0])
+    layers, res, stale = [], [], None
+    m = _res(lambda: build([]))
+    if isinstance(m, str):
+        return {"canon": json.dumps({"build": m})}
+    for st in op["steps"]:
+        if st[0] == "with":
+            layers.append(st[1])
+            m = m.with_env(dict(st[1]))
+            res.append("with")
+            continue
+        a, b = do(m, st), do(build(layers), st)
+        res.append(a)
+        if a != b and stale is None:
+            stale = {"step": st, "used": a, "fresh": b}
+    return {"canon": json.dumps(res, sort_keys=True), "stale": stale}
+
+
+def _filter_py(name):
+    if name == "raise":
+        def f(mod, path, entity=None):
+            raise RuntimeError("boom")
+    elif name == "report":
+        def f(mod, path, entity=None):
+            return "report" if entity else True
+    else:
+        def f(mod, path, entity=None):
+            return False if path.endswith("b") or entity == "b" else "error"
+    return f
+
+
+def _build_cfg(spec, path="/proj/l10n.toml"):
+    from compare_locales.paths import ProjectConfig
+    cfg = ProjectConfig(path)
+    if spec.get("root") is not None:
+        cfg.set_root(spec["root"])
+    cfg.add_environment(**dict(spec.get("env") or []))
+    cfg.add_paths(*_paths(spec.get("paths") or []))
+    if spec.get("filter_py"):
+        cfg.set_filter_py(_filter_py(spec["filter_py"]))
+    else:
+        cfg.add_rules(*_rules(spec.get("rules") or []))
+    cfg.set_locales(spec.get("locales"))
+    for i, ch in enumerate(spec.get("children") or []):
+        cfg.add_child(_build_cfg(ch, "/proj/child%d.toml" % i))
+    for i, ex in enumerate(spec.get("excludes") or []):
+        cfg.exclude(_build_cfg(ex, "/proj/ex%d.toml" % i))
+    return cfg
+
+
+def op_cfgq(base, op):
+    """ONE ProjectConfig through several queries (filter / all_locales), set_locales in between; after every query the
+    same query on a configuration built afresh (constructor + the set_locales so far): `stale` = first difference"""
+    spec = op["spec"]
+    muts = []
+
+    def apply(c, m):
+        if m[0] == "set_locales":
+            c.set_locales(m[1], deep=m[2])
+        else:
+            c.add_paths(*_paths(m[1]))
+
+    def fresh():
+        c = _build_cfg(spec)
+        for m in muts:
+            apply(c, m)
+        return c
+
+    def do(c, st):
+        if st[0] == "filter":
+            return _res(lambda: c.filter(File(st[1], st[1].rsplit("/", 1)[-1], locale=st[2]), st[3]))
+        if st[0] == "all_locales":
+            return _res(lambda: list(c.all_locales))
+        raise ValueError(st[0])
+    cfg = _res(lambda: _build_cfg(spec))
+    if isinstance(cfg, str):
+        return {"canon": json.dumps({"build": cfg})}
+    res, stale = [], None
+    for st in op["steps"]:
+        if st[0] in ("set_locales", "add_paths"):
+            muts.append(st)
+            apply(cfg, st)
+            res.append("set")
+            continue
+        if st[0] == "same":
+            from compare_locales.paths import ProjectConfig
+            other_env = _build_cfg(dict(spec, env=[["zz", "y"]]))
+            fewer = _build_cfg(dict(spec, children=[]))
+            other_child = _build_cfg(dict(spec, children=[dict(c, root="elsewhere") for c in spec.get("children") or []]))
+            rootless = ProjectConfig(None)
+            rootless.set_root("x")
+            with_ex = _build_cfg({"locales": ["de"], "env": [], "root": None, "paths": [], "rules": [],
+                                  "excludes": [{"locales": ["de"], "env": [], "root": None, "paths": [], "rules": []}]})
+            res.append([cfg.same(fresh()), cfg.same(object()), cfg.same(other_env), cfg.same(fewer), cfg.same(other_child),
+                        rootless.root, _res(lambda: fresh().add_child(with_ex)), _res(lambda: fresh().exclude(with_ex)),
+                        [type(c).__name__ for c in cfg.configs]])
+            continue
+        a, b = do(cfg, st), do(fresh(), st)
+        res.append(a)
+        if a != b and stale is None:
+            stale = {"step": st, "used": a, "fresh": b}
+    return {"canon": json.dumps(res, sort_keys=True), "stale": stale}
+
+
+def op_mozfn(base, op):
+    """the cache-free helpers of mozpath (pure functions of their arguments)"""
+    ps, bs = op["paths"], op["bases"]
+    out = []
+    for p in ps:
+        out.append([p, _res(lambda: mozpath.normsep(p)), _res(lambda: mozpath.normpath(p)), _res(lambda: mozpath.dirname(p)),
+                    _res(lambda: mozpath.basename(p)), _res(lambda: list(mozpath.splitext(p))), _res(lambda: mozpath.split(p)),
+                    _res(lambda: mozpath.basedir(p, bs)), _res(lambda: mozpath.join("/x", p)),
+                    _res(lambda: mozpath.relpath("/x/" + p, "/x")), _res(lambda: mozpath.abspath("/x/" + p)),
+                    _res(lambda: mozpath.realpath("/nonexistent-c18/" + p))])
+    out.append(_res(lambda: mozpath.commonprefix(ps)))
+    out.append([_res(lambda: mozpath.rebase("foo", "foo/bar", "bar/baz")), _res(lambda: mozpath.rebase("foo/bar", "foo", "baz")),
+                _res(lambda: mozpath.rebase("foo", "foo", "x/")), _res(lambda: mozpath.rebase("a", "a/b", "b/c/"))])
+    return {"canon": json.dumps(out, sort_keys=True)}
+
+
+# ---------------------------------------------------------------- round 4: the whole state machine (HistM)
+MODEL_FMT = ("properties", "dtd", "ini", "inc", "po")
+OBJ = {"m": {}, "c": {}, "d": {}}
+PLUGIN_SRC = """
+import re
+from compare_locales.parser.properties import PropertiesParser
+
+
+class PluginParser(PropertiesParser):
+    def use(self, path):
+        return re.search(r"c18.*\\.c18x$", path) is not None
+"""
+
+
+def op_env(base, op):
+    """what `iter_entry_points("compare_locales.parsers")` will find in THIS process (must be the first operation):
+    ep = "none" (nothing registered), "plugin" (a distribution registering c18plugin:PluginParser for *.c18x),
+    "nopkg" (`import pkg_resources` raises ImportError)"""
+    ep = op.get("ep", "none")
+    if ep == "nopkg":
+        sys.modules["pkg_resources"] = None
+    elif ep == "plugin":
+        d = tempfile.mkdtemp(dir=base)
+        with open(os.path.join(d, "c18plugin.py"), "w") as f:
+            f.write(PLUGIN_SRC)
+        di = os.path.join(d, "c18plugin-0.1.dist-info")
+        os.makedirs(di)
+        with open(os.path.join(di, "METADATA"), "w") as f:
+            f.write("Metadata-Version: 2.1\nName: c18plugin\nVersion: 0.1\n")
+        with open(os.path.join(di, "entry_points.txt"), "w") as f:
+            f.write("[compare_locales.parsers]\nc18x = c18plugin:PluginParser\n")
+        sys.path.insert(0, d)
+        if sys.modules.get("pkg_resources") is not None:
+            sys.modules["pkg_resources"].working_set.add_entry(d)
+    return {"canon": json.dumps({"ep": ep})}
+
+
+def exc_name(e):
+    return "E:" + type(e).__name__
+
+
+def shared_parser(p):
+    return any(p is item[1] for item in getattr(P, "__constructors"))
+
+
+def op_getparser(base, op):
+    """getParser(path) itself: class of the parser, and whether it is one of the shared instances"""
+    try:
+        p = P.getParser(op["path"])
+    except UserWarning:
+        return {"canon": json.dumps(None), "model": "none"}
+    cls = type(p).__name__
+    sh = shared_parser(p)
+    res = {"canon": json.dumps([cls, sh, P.hasParser(op["path"])])}
+    res["model"] = "%s %s" % (enc(cls), "shared" if sh else "new")
+    return res
+
+
+def op_read(base, op):
+    """p.readUnicode(text) alone on the shared parser (what readFile / readContents end in)"""
+    fmt = op["fmt"]
+    P.getParser(FNAME[fmt]).readUnicode(op["text"])
+    res = {"canon": "ok"}
+    if fmt in MODEL_FMT:
+        res["model"] = "ok"
+    return res
+
+
+def op_rewalk(base, op):
+    """list(p.walk()) once more on whatever Context the shared parser currently holds"""
+    fmt = op["fmt"]
+    p = P.getParser(FNAME[fmt])
+    ents = list(p.walk())
+    res = {"canon": json.dumps([observe(e) for e in ents]), "junk": [e.key for e in ents if isinstance(e, Junk)]}
+    if fmt in MODEL_FMT:
+        res["model"] = " | ".join(["done"] + [model_entry(e, fmt) for e in ents])
+    return res
+
+
+def lint_model(out, exc):
+    if exc:
+        return "exc " + exc.split(":")[0]
+    return " ; ".join(["ok"] + ["%s %d %d %s" % (r["level"], r["lineno"], r["column"], enc(r["message"])) for r in out])
+
+
+def op_chan(base, op):
+    """merge_channels(name, [bytes, ...]) — newest first"""
+    from compare_locales.merge import merge_channels
+    name = op.get("name") or FNAME[op["fmt"]]
+    try:
+        out = merge_channels(name, [t.encode("utf-8") for t in op["texts"]]).decode("utf-8", "replace")
+        exc = None
+    except Exception as ex:       # noqa
+        out, exc = None, "%s: %s" % (type(ex).__name__, ex)
+    res = {"canon": json.dumps({"out": out, "exc": exc}, sort_keys=True)}
+    res["model"] = ("ok " + enc(out)) if exc is None else ("exc " + exc.split(":")[0])
+    return res
+
+
+def op_moz(base, op):
+    try:
+        v = "1" if mozpath.match(op["path"], op["pattern"]) else "0"
+    except Exception as ex:       # noqa
+        v = exc_name(ex)
+    return {"canon": v, "model": v}
+
+
+def _unit(f):
+    try:
+        f()
+        return "ok"
+    except RecursionError as ex:
+        return exc_name(ex)
+    except Exception as ex:       # noqa
+        return exc_name(ex)
+
+
+def _root(root):
+    return root
+
+
+def op_mnew(base, op):
+    from compare_locales.paths.matcher import Matcher
+
+    def mk():
+        OBJ["m"][op["id"]] = Matcher(op["pattern"], dict(op.get("env") or []), root=op.get("root"))
+    v = _unit(mk)
+    return {"canon": v, "model": v}
+
+
+def op_mwith(base, op):
+    def mk():
+        OBJ["m"][op["new"]] = OBJ["m"][op["id"]].with_env(dict(op.get("env") or []))
+    if op["id"] not in OBJ["m"]:
+        return {"canon": "no-object", "model": "no-object"}
+    v = _unit(mk)
+    return {"canon": v, "model": v}
+
+
+def _dict_canon(d):
+    return "{" + ",".join(enc(k) + "=" + ("None" if v is None else enc(v)) for k, v in d.items()) + "}"
+
+
+def op_mmatch(base, op):
+    if op["id"] not in OBJ["m"]:
+        return {"canon": "no-object", "model": "no-object"}
+    try:
+        d = OBJ["m"][op["id"]].match(op["path"])
+        v = "None" if d is None else _dict_canon(d)
+    except Exception as ex:       # noqa
+        v = exc_name(ex)
+    return {"canon": v, "model": v}
+
+
+def op_msub(base, op):
+    if op["id"] not in OBJ["m"] or op["other"] not in OBJ["m"]:
+        return {"canon": "no-object", "model": "no-object"}
+    try:
+        r = OBJ["m"][op["id"]].sub(OBJ["m"][op["other"]], op["path"])
+        v = "None" if r is None else enc(r)
+    except Exception as ex:       # noqa
+        v = exc_name(ex)
+    return {"canon": v, "model": v}
+
+
+def _paths(paths):
+    out = []
+    for pat, locs in paths:
+        d = {"l10n": pat}
+        if locs is not None:
+            d["locales"] = list(locs)
+        if pat.endswith(".ini"):
+            d["test"] = ["android-dtd"]         # extra tests of a path entry play no role in `filter`
+        out.append(d)
+    return out
+
+
+def _rules(rules):
+    """raw rule dictionaries as the TOML parser hands them to add_rules: path str | list, key absent | str | list"""
+    out = []
+    for r in rules:
+        d = {"path": r["path"] if isinstance(r["path"], str) else list(r["path"]), "action": r["action"]}
+        if r.get("key") is not None:
+            d["key"] = r["key"] if isinstance(r["key"], str) else list(r["key"])
+        out.append(d)
+    return out
+
+
+def op_cnew(base, op):
+    from compare_locales.paths import ProjectConfig
+
+    def mk():
+        cfg = ProjectConfig("/proj/l10n.toml")
+        if op.get("root") is not None:
+            cfg.set_root(op["root"])
+        cfg.add_environment(**dict(op.get("env") or []))
+        cfg.add_paths(*_paths(op.get("paths") or []))
+        cfg.add_rules(*_rules(op.get("rules") or []))
+        cfg.set_locales(op.get("locales"))
+        OBJ["c"][op["id"]] = cfg
+    v = _unit(mk)
+    return {"canon": v, "model": v}
+
+
+def _cfg(op, f):
+    if op["id"] not in OBJ["c"]:
+        return {"canon": "no-object", "model": "no-object"}
+    v = f(OBJ["c"][op["id"]])
+    return {"canon": v, "model": v}
+
+
+def op_csetloc(base, op):
+    return _cfg(op, lambda c: _unit(lambda: c.set_locales(op.get("locales"))))
+
+
+def op_caddrules(base, op):
+    return _cfg(op, lambda c: _unit(lambda: c.add_rules(*_rules(op["rules"]))))
+
+
+def op_caddpaths(base, op):
+    return _cfg(op, lambda c: _unit(lambda: c.add_paths(*_paths(op["paths"]))))
+
+
+def op_cfilter(base, op):
+    def f(c):
+        try:
+            a = c.filter(File(op["fullpath"], op["fullpath"].rsplit("/", 1)[-1], locale=op["locale"]), op.get("key"))
+            return {"error": "e", "warning": "w", "ignore": "i"}.get(a, "?" + repr(a))
+        except Exception as ex:       # noqa
+            return exc_name(ex)
+    return _cfg(op, f)
+
+
+def op_calllocales(base, op):
+    return _cfg(op, lambda c: ",".join(enc(l) for l in c.all_locales))
+
+
+class _Val:
+    """what DTDChecker.known_entities reads from a reference entity"""
+    def __init__(self, raw_val):
+        self.raw_val = raw_val
+
+
+def op_dnew(base, op):
+    from compare_locales.checks.dtd import DTDChecker
+    ck = DTDChecker(["android-dtd"] if op.get("android") else None, locale="de")
+    if op.get("reference") is not None:
+        ck.set_reference({i: _Val(v) for i, v in enumerate(op["reference"])})
+    OBJ["d"][op["id"]] = ck
+    return {"canon": "ok", "model": "ok"}
+
+
+def op_dknown(base, op):
+    if op["id"] not in OBJ["d"]:
+        return {"canon": "no-object", "model": "no-object"}
+    v = ",".join(enc(n) for n in sorted(OBJ["d"][op["id"]].known_entities(op["value"])))
+    return {"canon": v, "model": v}
+
+
+def op_dtext(base, op):
+    """DTDChecker.check(ref, l10n) on `<!ENTITY k "text">` entities with plain-text values; what the class-level text
+    handler holds afterwards is what processAndroidContent has been called with (android) / untouched (otherwise)"""
+    from compare_locales.checks.dtd import DTDChecker
+    from compare_locales.parser import DTDParser
+    if op["id"] not in OBJ["d"]:
+        return {"canon": "no-object", "model": "no-object"}
+    ck = OBJ["d"][op["id"]]
+    before = Junk.junkid
+    p = DTDParser()
+    p.readUnicode('<!ENTITY k "%s">' % op["ref"])
+    r = p.parse()[0]
+    p2 = DTDParser()
+    p2.readUnicode('<!ENTITY k "%s">' % op["text"])
+    l = p2.parse()[0]
+    assert Junk.junkid == before
+    seen = []
+    orig = ck.processAndroidContent
+
+    def spy(val):
+        seen.append(val)
+        return orig(val)
+    ck.processAndroidContent = spy
+    try:
+        results = [[tp, list(pos) if isinstance(pos, tuple) else int(pos), msg, cat] for tp, pos, msg, cat in ck.check(r, l)]
+        exc = None
+    except Exception as ex:       # noqa
+        results, exc = None, "%s: %s" % (type(ex).__name__, ex)
+    finally:
+        del ck.processAndroidContent
+    v = enc(seen[0]) if seen else "-"
+    return {"canon": json.dumps({"results": results, "exc": exc, "android_text": seen}), "model": v}
+
+
+def op_junkkey(base, op):
+    """the key the real `Junk.__init__` builds for counter value n and span (a, b)"""
+    from compare_locales.parser.base import Parser
+    keys = []
+    saved = Junk.junkid
+    try:
+        for n, a, b in op["cases"]:
+            Junk.junkid = n - 1
+            keys.append(Junk(Parser.Context(""), (a, b)).key)
+    finally:
+        Junk.junkid = saved
+    return {"canon": json.dumps(keys), "keys": keys}
+
+
+def state_digest():
+    """the real state components, in the form of lean/CLModel/Ops/C18.lean: showState"""
+    from compare_locales.checks.dtd import DTDChecker
+    incp = P.getParser("a.inc")
+    flag = lambda b: "1" if b else "0"
+
+    def fc(c):
+        if c._cache is None:
+            return "-"
+        return "%s:%s:%s" % (enc(c._cache.locale), "".join(flag(p._cached_re is not None) for p in c._cache.l10n_paths),
+                             "".join(flag(r["path"]._cached_re is not None) for r in c._cache.rules))
+    return "j=%d f=%s r=%s m=%s c=%s k=%s t=%s" % (
+        Junk.junkid, flag(incp.ctx is not None and incp.ctx.filter_empty_lines),
+        ";".join(enc(k) for k in mozpath.re_cache),
+        ",".join("%d:%s" % (i, flag(m._cached_re is not None)) for i, m in OBJ["m"].items()),
+        ",".join("%d:%s:%s" % (i, flag(c._all_locales is not None), fc(c)) for i, c in OBJ["c"].items()),
+        ",".join("%d:%s" % (i, flag(getattr(d, "_DTDChecker__known_entities") is not None)) for i, d in OBJ["d"].items()),
+        enc(DTDChecker.texthandler.textcontent))
+
+
 OPS = {"parse": op_parse, "hold": op_hold, "reobs": op_reobs, "compare": op_compare, "merge": op_merge,
        "lint": op_lint, "serialize": op_serialize, "add": op_add, "hasparser": op_hasparser, "mozmatch": op_mozmatch, "project": op_project,
-       "files": op_files}
+       "files": op_files, "env": op_env, "getparser": op_getparser, "rewalk": op_rewalk, "chan": op_chan, "moz": op_moz,
+       "mnew": op_mnew, "mwith": op_mwith, "mmatch": op_mmatch, "msub": op_msub, "cnew": op_cnew, "csetloc": op_csetloc,
+       "caddrules": op_caddrules, "caddpaths": op_caddpaths, "cfilter": op_cfilter, "calllocales": op_calllocales,
+       "dnew": op_dnew, "dknown": op_dknown, "dtext": op_dtext, "junkkey": op_junkkey,
+       "matcherq": op_matcherq, "cfgq": op_cfgq, "mozfn": op_mozfn, "read": op_read}
 
 
 def run_ops(base, ops):
@@ -382,6 +911,11 @@ def run_ops(base, ops):
             finally:
                 sys.stdout = real_stdout
             r["jid"] = [before, Junk.junkid]
+            if "model" in r:
+                try:
+                    r["state"] = state_digest()
+                except Exception as ex:     # noqa
+                    r["state"] = "DIGEST-EXC %s: %s" % (type(ex).__name__, ex)
             out.append(r)
     finally:
         if own:
